@@ -2,6 +2,7 @@ mod abs;
 mod checks;
 mod codec;
 mod layout;
+mod matrix;
 mod core;
 mod rec;
 mod repl;
@@ -22,6 +23,7 @@ fn main() {
         "replay" => abs::run_replay(&args[2..]),
         "repl" => repl::run(&args[2..]),
         "golden" => checks::golden(&args[2..]),
+        "matrix" => matrix::run(&args[2..]),
         "treecheck" => checks::treecheck(&args[2..]),
         "wirecheck" => checks::wirecheck(&args[2..]),
         "foreign" => checks::foreign(&args[2..]),
